@@ -103,13 +103,13 @@ check("C07",
       "undefined in any pattern, any file offset (kDummy padding) - is accepted by the strict reader (a parser written "
       "from the format document that checks every count, property size, bit-vector length, padding and external flag) "
       "and decodes to exactly the names, flags, times and attribute words written (strict_reader_accepts_filesinfo, "
-      "composed from per-property steps: EmptyStream, Dummy, Names, MTime, Attributes, END); NUMBERs <= 9 bytes decodable "
+      "composed from per-property steps: EmptyStream, Dummy, Names, MTime, Attributes, END); the same for the PackInfo section (strict_reader_accepts_packinfo); NUMBERs <= 9 bytes decodable "
       "by the spec decoder (C17); counter-example theorem for the pinned property-size computation (F1, repaired). "
       "Header.write is tied byte-for-byte to the writer model (hdr.w incl. partial vectors and zero-stream folders). "
       "Every archive built through py7zr in the exploration (histories of 1..3 sessions, every documented chain, +/-7zAES, "
       "raw/encoded/encrypted header) is parsed by the strict reader running as an executable and decoded with codec "
       "libraries + an independent 7zAES key derivation; recovered members are compared with what was written. Partial: "
-      "the PackInfo/UnpackInfo/SubStreamsInfo sections and the signature header are covered by the executable strict "
+      "the UnpackInfo/SubStreamsInfo sections and the signature header are covered by the executable strict "
       "reader and hdr.w, not by a composition theorem.",
       "Lean 4 proof (strict reader reads the written FilesInfo section, all inputs) + byte-for-byte correspondence of Header.write + independent reader exploration",
       "DESIGN.md §9.3 C07")
